@@ -538,13 +538,13 @@ theorem flat_map_keys_unique {lt : Int → Int → Bool} (h : StrictWeak lt) (in
     Distinct lt (keysOf ((FMap.ofList lt init {}).run lt ops).1.st) ∧
     ((FMap.ofList lt init {}).run lt ops).1.count lt k ≤ 1 := by
   have hm := (flat_map_refines h init ops).2
-  refine ⟨hm.uniq, ?_⟩
-  rw [FMap.count, count_eq h k _ hm.uniq]
+  refine ⟨hm.uniq h, ?_⟩
+  rw [FMap.count, count_eq h k _ (hm.uniq h)]
   split <;> omega
 
-/-- flat_map::insert keeps a storage that is strictly increasing by key strictly increasing (a map filled by
-    `insert` alone therefore iterates in std::map's order; operator[] / emplace append at the end and do
-    not — iteration order is not part of C02) -/
+/-- flat_map::insert keeps a storage that is strictly increasing by key strictly increasing (since the fix
+    'flat_map iterates in key order' operator[] / emplace / the initializer-list constructor insert at the same
+    `std::upper_bound` position, see `flat_map_iterates_in_key_order`) -/
 theorem flat_map_insert_keeps_sorted {lt : Int → Int → Bool} (h : StrictWeak lt) (m : FMap) (k v : Int)
     (hs : Sorted lt (keysOf m.st)) : Sorted lt (keysOf (m.insert lt k v).1.st) := by
   simp only [FMap.insert, findEntry_eq]
@@ -561,6 +561,41 @@ theorem flat_map_insert_keeps_sorted {lt : Int → Int → Bool} (h : StrictWeak
     exact (lookupBy_none_iff (·.1) k m.st).mp hf p hp
 
 example : Sorted ltInt (keysOf (FMap.ofList ltInt [(1, 10), (4, 40)] {}).st) := by decide
+
+/-- ITERATION ORDER (flat_map vs std::map).  In every reachable state — any initializer list, any history of
+    operator[] (read / write), insert, emplace, clear, re-initialisation and the read-only operations — the
+    storage is strictly increasing by key under the comparator, so `for (it = begin(); it != end(); ++it)` visits
+    the entries in std::map's order; the `iter` answer of `flat_map_refines` is exactly this list. -/
+theorem flat_map_iterates_in_key_order {lt : Int → Int → Bool} (h : StrictWeak lt) (init : List (Int × Int)) (ops : List MOp) :
+    Sorted lt (keysOf ((FMap.ofList lt init {}).run lt ops).1.st) ∧
+    ∀ p, p ∈ ((FMap.ofList lt init {}).run lt ops).1.st ↔
+      mapSpecRun lt (fun k => entry lt k init) ops p.1 = some p := by
+  have hm := (flat_map_refines h init ops).2
+  exact ⟨hm.sorted, fun p => by rw [hm.val]; exact entry_self h hm.sorted⟩
+
+example : ((FMap.ofList ltInt [(7, 1), (3, 2)] {}).run ltInt [.assign 5 50, .emplace 1 9, .index 4, .iter]).2.getLast? =
+    some (.entries [(1, 9), (3, 2), (4, 0), (5, 50), (7, 1)]) := by decide
+
+/-- before the fix operator[] / emplace / the initializer list appended at the end: `m[5] = 50; m[2] = 20;`
+    iterated 5, 2 (std::map: 2, 5), and `operator==` (comparison of the storage vectors) called two maps with the
+    same entries different when they were filled in a different order -/
+theorem flat_map_order_orig_witness :
+    (FMap.runOrig ltInt {} [.assign 5 50, .assign 2 20, .iter]).2 = [.unit, .unit, .entries [(5, 50), (2, 20)]] ∧
+    (FMap.run ltInt {} [.assign 5 50, .assign 2 20, .iter]).2 = [.unit, .unit, .entries [(2, 20), (5, 50)]] ∧
+    (FMap.runOrig ltInt {} [.assign 5 50, .assign 2 20]).1.eqStorage (FMap.runOrig ltInt {} [.assign 2 20, .assign 5 50]).1 = false ∧
+    (FMap.run ltInt {} [.assign 5 50, .assign 2 20]).1.eqStorage (FMap.run ltInt {} [.assign 2 20, .assign 5 50]).1 = true := by
+  decide
+
+/-- `flat_map::operator==` (it compares the storage vectors) is std::map's `==` on maps in the invariant: the
+    storages are equal exactly when both maps hold the same entry for every key — whatever the histories that
+    built them (std::map's == compares the entry sequences in key order, which are the storages) -/
+theorem flat_map_eq_is_map_eq {lt : Int → Int → Bool} (h : StrictWeak lt) {m1 m2 : FMap} {f1 f2 : Int → Option (Int × Int)}
+    (h1 : MRep lt m1 f1) (h2 : MRep lt m2 f2) : m1.eqStorage m2 = true ↔ f1 = f2 := by
+  simp only [FMap.eqStorage, beq_iff_eq]
+  exact storage_eq_iff h h1 h2
+
+example : MRep ltInt (FMap.run ltInt {} [.assign 5 50, .assign 2 20]).1 (mapSpecRun ltInt (fun _ => none) [.assign 5 50, .assign 2 20]) :=
+  (flat_map_refines_from strictWeak_ltInt MRep.empty _).2
 
 /-- before the fix `flat_map{{1,10},{1,20}}.count(1)` was 2 -/
 theorem flat_map_init_dup_orig_witness : (FMap.ofListOrig [(1, 10), (1, 20)]).count ltInt 1 = 2 := by decide
